@@ -819,6 +819,9 @@ func (c *Conn) WalWriteTx(prog WalTxProgram, ref *Image) TxResult {
 		c.WalEndRead()
 		return TxResult{Outcome: "error", Errno: e, FailedAt: "write-unlock", After: newIm}
 	}
+	if c.OnCommitPoint != nil {
+		c.OnCommitPoint()
+	}
 	c.WalEndRead()
 	return TxResult{Outcome: OutCommit, After: newIm, WalFirstFrame: firstFrame, WalFrames: len(frames), WalSalt: w.hdr.salt}
 }
